@@ -162,18 +162,25 @@ def _build_shape_via_setters(r):
     raise ValueError(k)
 
 
+def _centre(r):
+    """Centre array of a shape recipe; "int_c": an int-typed array (the values are whole numbers then)."""
+    if r.get("int_c") and all(float(x) == int(x) for x in r["c"]):
+        return np.array([int(r["c"][0]), int(r["c"][1])])
+    return np.array(r["c"], dtype=float)
+
+
 def _build_shape(r):
     k = r["k"]
     if k == "rect":
         kw = {}
         if r.get("c") is not None:
-            kw["center"] = np.array(r["c"], dtype=float)
+            kw["center"] = _centre(r)
         if r.get("o") is not None:
             kw["orientation"] = r["o"]
         return Rectangle(r["l"], r["w"], **kw)
     if k == "circle":
         if r.get("c") is not None:
-            return Circle(r["r"], np.array(r["c"], dtype=float))
+            return Circle(r["r"], _centre(r))
         return Circle(r["r"])
     if k == "poly":
         return Polygon(np.array(r["v"], dtype=float))
